@@ -14,6 +14,8 @@ import Bita.Spec.InPlace
 import Bita.Model.Archive
 import Bita.Model.Blake2b
 import Bita.Model.Clone
+import Bita.Model.Cli
+import Bita.Model.Schedule
 import Driver.Proto
 
 open Bita Driver
@@ -268,6 +270,82 @@ def handle (toks : List String) : Option String :=
       | .readChunks rs => some (joinWith "," (rs.map fun (o, s) => s!"{o}:{s}"))
       | _ => none
     some s!"result={res} out={digest r.output}{if short then "" else if noWrites then s!" fetch={joinWith "|" fetch}" else s!" writes={joinWith "," ((Spec.writesOf r.log).map fun (o, d) => s!"{o}.{digest d}")} fetch={joinWith "|" fetch}"}"
+  -- cli-clone <output state> <flags> <archive kind> : one row of C14's table on a model file system
+  | ["cli-clone", outState, flags, akind] => do
+    let src : Bytes := pattern 700
+    let junk := fun (n : Nat) => (pattern n).map (· + 101)     -- pre-existing content unrelated to the source
+    let arch := createArchive Blake2b.hash "cli" id ⟨.fixed 100, 8, none, []⟩ src
+    let hc := match tryInit Blake2b.hash [] (honestReadAt arch) with
+      | .ok a => a.headerChecksum
+      | _ => []
+    let bad := arch.set 25 ((arch.getD 25 0) ^^^ 16)
+    let prior : Option Node :=
+      if outState = "absent" then none
+      else if outState = "regular-short" then some (.regular (junk 230))
+      else if outState = "regular-long" then some (.regular (junk 1200))
+      else if outState = "blockdev-big" then some (.blockdev (junk 764))
+      else some (.blockdev (junk 690))
+    let fs : Fs := [("a.cba", .regular arch), ("bad.cba", .regular bad), ("junk.cba", .regular (pattern 200))] ++
+      (match prior with | some n => [("out", n)] | none => [])
+    let apath := if akind = "corrupt-header" then "bad.cba" else if akind = "not-an-archive" then "junk.cba" else "a.cba"
+    let pin : Option Bytes :=
+      if akind = "pin-mismatch" then some (hc.set 0 ((hc.getD 0 0) ^^^ 1))
+      else if akind = "pin-prefix" then some (hc.take 4)
+      else if akind = "pin-ok" then some hc else none
+    let c : CloneCmd := ⟨⟨flags = "force", flags = "seed-output", false⟩, pin, "out", apath, []⟩
+    let r := Cli.clone Blake2b.hash (fun _ b _ => some b) c fs
+    let after := r.fs.get "out"
+    let verdict := if after = prior then "untouched"
+      else match after with
+        | some n => if n.data.take src.length = src then "source" else "other"
+        | none => "other"
+    some s!"result={if r.ok then "ok" else "refused"} output={verdict}"
+  -- cli-compress <present|absent> <force|none>
+  | ["cli-compress", exists_, force] => do
+    let src : Bytes := pattern 300
+    let prior : Option Node := if exists_ = "present" then some (.regular (pattern 100)) else none
+    let fs : Fs := [("in", .regular src)] ++ (match prior with | some n => [("out.cba", n)] | none => [])
+    let c : CompressCmd := ⟨⟨force = "force", false, false⟩, "in", "out.cba", tempPathOf "out.cba", ⟨.fixed 64, 64, none, []⟩⟩
+    let r := Cli.compress Blake2b.hash id c fs
+    some s!"result={if r.ok then "ok" else "refused"} output={if r.fs.get "out.cba" = prior then "untouched" else "archive"}"
+  -- cli-clone-files <mode> : write intents on the output and number of other paths with a write intent
+  | ["cli-clone-files", mode] => do
+    let src : Bytes := pattern 700
+    let arch := createArchive Blake2b.hash "cli" id ⟨.fixed 100, 8, none, []⟩ src
+    let inPlace := mode = "in-place" ∨ mode = "in-place+seeds" ∨ mode = "blockdev"
+    let hasOut := inPlace ∨ mode = "force"
+    let fs : Fs := [("a.cba", .regular arch), ("s1", .regular (pattern 300)), ("s2", .regular (pattern 90))] ++
+      (if hasOut then [("out", if mode = "blockdev" then Node.blockdev (pattern 900) else Node.regular (pattern 650))] else [])
+    let seeds := if mode = "seeds" ∨ mode = "in-place+seeds" ∨ mode = "http+seed" then ["s1", "s2"] else []
+    let c : CloneCmd := ⟨⟨mode = "force", inPlace, mode = "verify"⟩, none, "out", "a.cba", seeds⟩
+    let r := Cli.clone Blake2b.hash (fun _ b _ => some b) c fs
+    let intents := r.ops.filterMap fun op => match op with
+      | .openWrite p fl => if p = "out" then some ("write-open:" ++ "|".intercalate ((fl.splitOn "|").toArray.qsort (· < ·)).toList) else none
+      | _ => none
+    let others := r.ops.filter fun op => match op with
+      | .openRead _ => false
+      | .openWrite p _ => p ≠ "out"
+      | .write p => p ≠ "out"
+      | .truncate p => p ≠ "out"
+      | .unlink _ => true
+    some s!"output={joinWith ";" intents} others={others.length}"
+  -- cli-compress-files <plain|force>
+  | ["cli-compress-files", mode] => do
+    let fs : Fs := [("in", .regular (pattern 300))] ++ (if mode = "force" then [("out.cba", Node.regular [1])] else [])
+    let tmp := tempPathOf "out.cba"
+    let c : CompressCmd := ⟨⟨mode = "force", false, false⟩, "in", "out.cba", tmp, ⟨.fixed 64, 64, none, []⟩⟩
+    let r := Cli.compress Blake2b.hash id c fs
+    let show_ (p : String) : String := joinWith ";" ((r.ops.filterMap fun op => match op with
+      | .openWrite q fl => if q = p then some ("write-open:" ++ "|".intercalate ((fl.splitOn "|").toArray.qsort (· < ·)).toList) else none
+      | .unlink q => if q = p then some "unlink" else none
+      | _ => none).toArray.qsort (· < ·)).toList
+    let others := r.ops.filter fun op => match op with
+      | .openRead _ => false
+      | .openWrite p _ => p ≠ "out.cba" ∧ p ≠ tmp
+      | .write p => p ≠ "out.cba" ∧ p ≠ tmp
+      | .truncate p => p ≠ "out.cba" ∧ p ≠ tmp
+      | .unlink p => p ≠ tmp
+    some s!"output={show_ "out.cba"} temp={show_ tmp} others={others.length} tmpname={tmp}"
   -- plan-safe <sizes> <O ids> <N ids> <ops> : is this op list (the implementation's) a safe plan
   -- in the sense of Spec.InPlace.safePlan?
   | ["plan-safe", sizes, o, n, ops] => do
